@@ -185,6 +185,10 @@ func c09Mag(c *Ctx, idx int) {
 	base := c.measure(inst(f.base), c09Doc(f.base, cls), budget)
 	worst := base
 	for _, m := range c09Mags {
+		if len(m) < len(f.base) || (len(m) == len(f.base) && m <= f.base) {
+			// not beyond the data of this size class: the result legitimately differs
+			continue
+		}
 		text := inst(m)
 		k := c.measure(text, c09Doc(m, cls), budget)
 		c.Nontrivial(f.name, m, fmt.Sprint(neg), fmt.Sprint(cls))
